@@ -138,7 +138,8 @@ void spline_filter1d(numpy::aligned_array<FT> array, const int order, const int 
 template <typename FT>
 void spline_coefficients(FT x, const int order, std::vector<FT>& result)
 {
-    const FT start = floor(x + 0.5*(order & 1)) - order / 2;
+    // odd orders: the support starts at floor(x); even orders: at the nearest integer
+    const FT start = floor(x + 0.5*(1 - (order & 1))) - order / 2;
 
     for(int hh = 0; hh <= order; hh++)  {
         FT y = fabs(start - x + hh);
@@ -215,6 +216,84 @@ FT std_like_round(FT v) {
 }
 
 
+// Maps a real coordinate into [0, len-1] according to the border mode
+// (returns -1 if the coordinate is outside and the mode is constant/ignore)
+template <typename FT>
+FT map_coordinate(FT in, const npy_intp len, const int mode) {
+    if (in < 0) {
+        switch (mode) {
+            case ExtendMirror:
+                if (len <= 1) {
+                    in = 0;
+                } else {
+                    const npy_intp sz2 = 2 * len - 2;
+                    in = sz2 * (npy_intp)(-in / sz2) + in;
+                    in = in <= 1 - len ? in + sz2 : -in;
+                }
+                break;
+            case ExtendReflect:
+                if (len <= 1) {
+                    in = 0;
+                } else {
+                    const npy_intp sz2 = 2 * len;
+                    if (in < -sz2) in = sz2 * (npy_intp)(-in / sz2) + in;
+                    in = in < -len ? in + sz2 : -in - 1;
+                }
+                break;
+            case ExtendWrap:
+                if (len <= 1) {
+                    in = 0;
+                } else {
+                    const npy_intp sz = len - 1;
+                    in += sz * ((npy_intp)(-in / sz) + 1);
+                }
+                break;
+            case ExtendNearest:
+                in = 0;
+                break;
+            default:
+                in = -1;
+                break;
+        }
+    } else if (in > len - 1) {
+        switch (mode) {
+            case ExtendMirror:
+                if (len <= 1) {
+                    in = 0;
+                } else {
+                    const npy_intp sz2 = 2 * len - 2;
+                    in -= sz2 * (npy_intp)(in / sz2);
+                    if (in >= len) in = sz2 - in;
+                }
+                break;
+            case ExtendReflect:
+                if (len <= 1) {
+                    in = 0;
+                } else {
+                    const npy_intp sz2 = 2 * len;
+                    in -= sz2 * (npy_intp)(in / sz2);
+                    if (in >= len) in = sz2 - in - 1;
+                }
+                break;
+            case ExtendWrap:
+                if (len <= 1) {
+                    in = 0;
+                } else {
+                    const npy_intp sz = len - 1;
+                    in -= sz * (npy_intp)(in / sz);
+                }
+                break;
+            case ExtendNearest:
+                in = len - 1;
+                break;
+            default:
+                in = -1;
+                break;
+        }
+    }
+    return in;
+}
+
 template <typename FT>
 void zoom_shift(const numpy::aligned_array<FT> array, PyArrayObject* zoom_ar,
                                  PyArrayObject* shift_ar, numpy::aligned_array<FT> output,
@@ -229,7 +308,7 @@ void zoom_shift(const numpy::aligned_array<FT> array, PyArrayObject* zoom_ar,
 
     std::vector< std::vector<bool> > zeros;
     /* if the mode is 'constant' we need some temps later: */
-    if (mode == ExtendConstant) {
+    if (mode == ExtendConstant || mode == ExtendIgnore) {
         for(int r = 0; r < rank; r++) {
             zeros.push_back( std::vector<bool>(output.dim(r)) );
         }
@@ -253,9 +332,9 @@ void zoom_shift(const numpy::aligned_array<FT> array, PyArrayObject* zoom_ar,
             FT cc = kk;
             if (shifts) cc += shifts[r];
             if (zooms) cc *= zooms[r];
-            cc = fix_offset(ExtendMode(mode), npy_intp(std_like_round(cc + 0.5)), array.dim(r));
-            if (cc != border_flag_value) {
-                const int start = int(floor(cc + 0.5*(order & 1)) - order / 2);
+            cc = map_coordinate(cc, array.dim(r), mode);
+            if (cc > -1.0) {
+                const int start = int(floor(cc + 0.5*(1 - (order & 1))) - order / 2);
                 offsets[r][kk] = array.stride(r) * start;
                 if (start < 0 || start + order >= array.dim(r)) {
                     edge_offsets[r][kk].resize(order + 1);
